@@ -50,6 +50,7 @@ func init() {
 			{Name: "stream-chunking-recv", Mode: "enum", Reset: kit.ResetGlobals, Body: func() { chunking(tier == "thorough") }, NeedCounters: []string{"split-inside-length-prefix", "split-inside-payload", "one-byte-reads"}},
 			{Name: "stream-send-sizes", Mode: "enum", Reset: kit.ResetGlobals, Body: sendSizes},
 			{Name: "stream-recv-sizes", Mode: "enum", Reset: kit.ResetGlobals, Body: recvSizes},
+			{Name: "stream-limit-changed-after-listen", Mode: "enum", Reset: kit.ResetGlobals, Body: limitAfterListen, NeedCounters: []string{"delivered-at-new-limit"}},
 			{Name: "stream-write-fails-then-retransmission", Mode: "enum", Reset: kit.ResetGlobals, Body: writeFailsThenRetransmit, NeedCounters: []string{"retransmitted-intact"}},
 		}
 	})
@@ -778,6 +779,38 @@ func recvSizes() {
 		kit.Failf("chunked-unread", "%d bytes were never read", h.Unread())
 	}
 	kit.Observe("%s %s %d %d", scheme, k.Name, sendSz[i], sendSz[j])
+	kit.Must("Close", func() { _ = v.x.S.Close() })
+}
+
+// limitAfterListen: the receive limit is changed (raised above the 1 MiB default, lowered, or lifted)
+// on a socket that is already listening; a peer that connects afterwards sends a message whose
+// total size is exactly the new limit (or, with the limit lifted, just above the default): it is
+// delivered whole, byte for byte.
+func limitAfterListen() {
+	pickScheme()
+	k := kinds.ByName([]string{"pull", "pair"}[kit.ChooseFree(2)])
+	limit := []int{2 << 20, 4096, 0}[kit.ChooseFree(3)]
+	v := open(k, -1)
+	if err := v.x.S.SetOption(mangos.OptionMaxRecvSize, limit); err != nil {
+		kit.Failf("setup", "MaxRecvSize after Listen: %s", kit.ErrName(err))
+	}
+	h := v.goodPeer("sender")
+	size := limit
+	if limit == 0 {
+		size = 1<<20 + 1
+	}
+	m := pat(3, size)
+	h.Feed(frame(m))
+	c := kit.Start("Recv", func() (interface{}, error) { return v.x.Recv() })
+	kit.Quiesce()
+	if !c.Done() || c.Err != nil {
+		kit.Failf("at-limit-not-delivered", "%s over %s: the receive limit was set to %d after Listen; a message of %d bytes from a peer that connected afterwards: Recv done=%v %s (connection closed by mangos: %v)", k.Name, scheme, limit, size, c.Done(), kit.ErrName(c.Err), h.ClosedByMangos())
+	}
+	if got := c.Val.(string); got != string(m) {
+		kit.Failf("stream-recv-differs", "%d byte message arrived as %d bytes, first difference at %d", size, len(got), firstDiff([]byte(got), m))
+	}
+	kit.Count("delivered-at-new-limit")
+	kit.Observe("%s %s %d", scheme, k.Name, limit)
 	kit.Must("Close", func() { _ = v.x.S.Close() })
 }
 
